@@ -494,6 +494,14 @@ def buildAckRC (ver : Nat) (rc : Nat) : Nat := if ver == 5 then rc else 0
 def writeAck (s : Server) (i : Nat) (t id rc : Nat) : List Out :=
   writeMsg s i { type := t, id := id, reasonCode := rc }
 
+/-- a direct `WritePacket` by the handler fails: the client is closed (`ErrConnectionClosed`) or its
+    peer is gone (the write on the connection returns an error) -/
+def dead (c : Client) : Bool := !c.isOpen || c.peerGone
+
+/-- `return cl.WritePacket(ack)`: the handler's result is the write's error -/
+def ackRes (s : Server) (i : Nat) (t id rc : Nat) : Server × List Out × Option Nat :=
+  if dead (getObj s i) && !(getObj s i).inline then (s, [], some 0) else (s, writeAck s i t id rc, none)
+
 /-- `processPublish` -/
 def processPublish (s : Server) (i : Nat) (qos : Nat) (dup retain : Bool) (id : Nat) (topic payload : Str)
     (msgExpiry : Nat) (alias : Option Nat) : HRes :=
@@ -503,7 +511,7 @@ def processPublish (s : Server) (i : Nat) (qos : Nat) (dup retain : Bool) (id : 
     else if c.ver != 5 then
       let (s, o) := disconnectClient s i 0x90
       (s, o, some 0x90)
-    else (s, writeAck s i (if qos == 2 then 5 else 4) id 0x90, none)
+    else ackRes s i (if qos == 2 then 5 else 4) id 0x90
   else if c.recvQuota == 0 then
     let (s, o) := disconnectClient s i 0x93
     (s, o, some 0x93)
@@ -512,7 +520,7 @@ def processPublish (s : Server) (i : Nat) (qos : Nat) (dup retain : Bool) (id : 
     else if c.ver != 5 then
       let (s, o) := disconnectClient s i 0x87
       (s, o, some 0x87)
-    else (s, writeAck s i (if qos == 2 then 5 else 4) id 0x87, none)
+    else ackRes s i (if qos == 2 then 5 else 4) id 0x87
   else
     let e := minimumNZ s.caps.maxMessageExpiry msgExpiry
     let pk : Msg := { type := 3, id := id, qos := qos, dup := dup, retain := retain, topic := topic, payload := payload,
@@ -521,7 +529,7 @@ def processPublish (s : Server) (i : Nat) (qos : Nat) (dup retain : Bool) (id : 
     let pre : Option HRes :=
       if c.inline then none else
       match flGet c id with
-      | some pki => if pki.type == 5 then some (s, writeAck s i 5 id 0x91, none) else none
+      | some pki => if pki.type == 5 then some (ackRes s i 5 id 0x91) else none
       | none => none
     match pre with
     | some r => r
@@ -546,7 +554,7 @@ def processPublish (s : Server) (i : Nat) (qos : Nat) (dup retain : Bool) (id : 
       -- OnPublish hook
       let mode := assocGet s.pubHook pk.topic
       if mode == some "reject" then (s, [], none)
-      else if mode == some "err" && c.ver == 5 && pk.qos > 0 then (s, writeAck s i 4 id 0x87, none)
+      else if mode == some "err" && c.ver == 5 && pk.qos > 0 then ackRes s i 4 id 0x87
       else
         let pk := if mode == some "ignore" then { pk with ignore := true } else pk
         let s := if pk.retain then retainMsg s pk else s
@@ -561,7 +569,7 @@ def processPublish (s : Server) (i : Nat) (qos : Nat) (dup retain : Bool) (id : 
           let (c', isNew) := flSet (getObj s i) ack
           let s := setObj s i c'
           let s := if isNew then { s with info := { s.info with inflight := s.info.inflight + 1 } } else s
-          if !(getObj s i).isOpen then (s, [], some 0)   -- WritePacket: ErrConnectionClosed
+          if dead (getObj s i) then (s, [], some 0)   -- WritePacket: ErrConnectionClosed / write error
           else
             let o1 := writeMsg s i ack
             let s := if pk.qos == 1 then
@@ -595,7 +603,7 @@ def reasonValid (t rc : Nat) : Bool :=
 
 def processPubrec (s : Server) (i : Nat) (id rc : Nat) : HRes :=
   let c := getObj s i
-  if (flGet c id).isNone then (s, writeAck s i 6 id 0x92, none)
+  if (flGet c id).isNone then ackRes s i 6 id 0x92
   else if rc ≥ 0x80 || !reasonValid 5 rc then
     let c := (flDelete c id).1
     ({ setObj s i c with info := { s.info with inflight := s.info.inflight - 1 } }, [], none)
@@ -603,11 +611,11 @@ def processPubrec (s : Server) (i : Nat) (id rc : Nat) : HRes :=
     let ack : Msg := { type := 6, id := id, qos := 1, reasonCode := 0, created := NOW, expiry := NOW + s.caps.maxMessageExpiry }
     let c := (flSet (decRecv c) ack).1
     let s := setObj s i c
-    (s, writeMsg s i ack, none)
+    if dead c then (s, [], some 0) else (s, writeMsg s i ack, none)
 
 def processPubrel (s : Server) (i : Nat) (id rc : Nat) : HRes :=
   let c := getObj s i
-  if (flGet c id).isNone then (s, writeAck s i 7 id 0x92, none)
+  if (flGet c id).isNone then ackRes s i 7 id 0x92
   else if rc ≥ 0x80 || !reasonValid 6 rc then
     let c := (flDelete c id).1
     ({ setObj s i c with info := { s.info with inflight := s.info.inflight - 1 } }, [], none)
@@ -615,7 +623,7 @@ def processPubrel (s : Server) (i : Nat) (id rc : Nat) : HRes :=
     let ack : Msg := { type := 7, id := id, reasonCode := 0, created := NOW, expiry := NOW + s.caps.maxMessageExpiry }
     let c := (flSet c ack).1
     let s := setObj s i c
-    if !c.isOpen then (s, [], some 0) else
+    if dead c then (s, [], some 0) else
     let o := writeMsg s i ack
     let c := incSend (incRecv c)
     let (c, ok) := flDelete c id
@@ -649,7 +657,7 @@ def processSubscribe (s : Server) (i : Nat) (id subId : Nat) (filters : List Sub
       (s, rcs ++ [fin (grantedQos s.caps sub.qos)], exs ++ [!rr.2])) (s, [], [])
   let (s, rcs, exs) := r
   let c := getObj s i
-  if !c.isOpen then (s, [], some 0) else
+  if dead c then (s, [], some 0) else
   let o1 := [Out.wrote c.conn (.suback c.ver id rcs)]
   -- retained messages for the accepted filters
   let z := (filters.zip (rcs.zip exs)).zipIdx.foldl (fun (acc : Server × List Out) (xk : (Sub × Nat × Bool) × Nat) =>
@@ -673,7 +681,7 @@ def processUnsubscribe (s : Server) (i : Nat) (id : Nat) (filters : List Str) : 
     (s, rcs ++ [if rr.2 then 0x00 else 0x11])) (s, [])
   let (s, rcs) := r
   let c := getObj s i
-  if !c.isOpen then (s, [], some 0) else
+  if dead c then (s, [], some 0) else
   (s, [.wrote c.conn (.unsuback c.ver id rcs)], none)
 
 /-- `processDisconnect` -/
@@ -722,7 +730,7 @@ def receivePacket (s : Server) (i : Nat) (pk : InPk) : HRes :=
     | .pubrec id rc => processPubrec s i id rc
     | .pubrel id rc => processPubrel s i id rc
     | .pubcomp id _ => processPubcomp s i id
-    | .pingreq => if c.isOpen then (s, [.wrote c.conn .pingresp], none) else (s, [], some 0)
+    | .pingreq => if !dead c then (s, [.wrote c.conn .pingresp], none) else (s, [], some 0)
     | .disconnect rc sei => processDisconnect s i rc sei
   match r with
   | (s, o, none) =>
@@ -1016,6 +1024,7 @@ inductive Op where
   | connect (conn : Nat) (k : Connect)
   | recv (conn : Nat) (pk : InPk)
   | drop (conn : Nat)
+  | recvCut (conn : Nat) (pk : InPk)  -- the peer sends one packet and vanishes: the handler's own writes fail
   | dropHold (conn : Nat)   -- the connection is lost; its handler is parked before the session clean-up
   | release (conn : Nat)    -- the parked handler runs on
   | dropHoldEarly (conn : Nat)  -- the connection is lost; its handler is parked right after the read loop
@@ -1046,6 +1055,16 @@ def step (s : Server) : Op → Server × List Out
       else (s, o)
     | none => (s, o)
   | .recv conn pk => recvOn s conn pk true
+  | .recvCut conn pk =>
+    match assocGet s.connOf conn with
+    | none => (s, [])
+    | some i =>
+      if (getObj s i).stopped || !(getObj s i).isOpen then (s, []) else
+      let s := modObj s i (fun c => { c with peerGone := true })
+      let (s, o) := recvOn s conn pk false
+      -- the handler answered nothing itself: its next read fails and the connection ends with an error
+      let (s, o2) := if (getObj s i).stopped then (s, []) else detach s i true
+      (s, (o ++ o2).filter (fun x => match x with | .closed c => c != conn | _ => true))
   | .drop conn =>
     match assocGet s.connOf conn with
     | none => (s, [])
